@@ -66,27 +66,45 @@ Proof.
   assert (0 <= q) by (unfold P in *; nia). split; [lia|]. replace (sp - (sp - q)) with q by lia. lia.
 Qed.
 (* base in, price down: never below the exact liq*sp/(liq + amt*sp) *)
+Lemma next_base_in_up_raw_ge sp liq amt n :
+  0 <= amt -> 0 < sp -> 0 < liq -> next_sqrt_from_base_in_up_raw sp liq amt = Some n ->
+  liq * sp * P <= n * (liq * P + amt * sp).
+Proof.
+  intros Ha Hs Hl H. unfold next_sqrt_from_base_in_up_raw in H.
+  destruct (dmulT amt sp) as [pr|] eqn:E1; cbn [obind] in H; [|discriminate].
+  destruct (dadd pr liq) as [den|] eqn:E2; cbn [obind] in H; [|discriminate].
+  destruct (dmulU liq sp) as [num|] eqn:E3; cbn [obind] in H; [|discriminate].
+  apply dadd_some in E2. subst den.
+  pose proof (dmulT_bracket _ _ _ Ha (Z.lt_le_incl _ _ Hs) E1) as B1.
+  pose proof (dmulU_bracket _ _ _ (Z.lt_le_incl _ _ Hl) (Z.lt_le_incl _ _ Hs) E3) as B3.
+  assert (Hpr : 0 <= pr) by (unfold P in *; nia).
+  assert (Hnum : 0 <= num) by (unfold P in *; nia).
+  pose proof (dquoU_bracket num (pr + liq) n Hnum ltac:(lia) H) as B4.
+  (* n*(pr+liq) >= num*P >= liq*sp ; and pr*P <= amt*sp *)
+  assert (n * (pr + liq) * P >= liq * sp * P) by (unfold P in *; nia).
+  assert (0 <= n) by (unfold P in *; nia).
+  unfold P in *. nia.
+Qed.
+(* the capped result is still at least the exact price, and never above the current one *)
 Theorem next_base_in_up_ge sp liq amt n :
   0 <= amt -> 0 < sp -> 0 < liq -> next_sqrt_from_base_in_up sp liq amt = Some n ->
-  liq * sp * P <= n * (liq * P + amt * sp).
+  liq * sp * P <= n * (liq * P + amt * sp) /\ n <= sp.
 Proof.
   intros Ha Hs Hl H. unfold next_sqrt_from_base_in_up in H.
   destruct (Z.eqb_spec amt 0) as [->|Hz].
-  - injection H as <-. nia.
-  - destruct (dmulT amt sp) as [pr|] eqn:E1; cbn [obind] in H; [|discriminate].
-    destruct (dadd pr liq) as [den|] eqn:E2; cbn [obind] in H; [|discriminate].
-    destruct (dmulU liq sp) as [num|] eqn:E3; cbn [obind] in H; [|discriminate].
-    apply dadd_some in E2. subst den.
-    pose proof (dmulT_bracket _ _ _ Ha (Z.lt_le_incl _ _ Hs) E1) as B1.
-    pose proof (dmulU_bracket _ _ _ (Z.lt_le_incl _ _ Hl) (Z.lt_le_incl _ _ Hs) E3) as B3.
-    assert (Hpr : 0 <= pr) by (unfold P in *; nia).
-    assert (Hnum : 0 <= num) by (unfold P in *; nia).
-    pose proof (dquoU_bracket num (pr + liq) n Hnum ltac:(lia) H) as B4.
-    (* n*(pr+liq) >= num*P >= liq*sp ; and pr*P <= amt*sp *)
-    assert (n * (pr + liq) * P >= liq * sp * P) by (unfold P in *; nia).
-    assert (0 <= n) by (unfold P in *; nia).
-    unfold P in *. nia.
+  - injection H as <-. split; [nia|lia].
+  - destruct (next_sqrt_from_base_in_up_raw sp liq amt) as [r|] eqn:Er; cbn [obind] in H; [|discriminate].
+    pose proof (next_base_in_up_raw_ge _ _ _ _ Ha Hs Hl Er) as Hr.
+    injection H as <-. destruct (sp <? r) eqn:Ec.
+    + split; [unfold P in *; nia|lia].
+    + split; [exact Hr|lia].
 Qed.
+(* as found: 1.89 units of base into liquidity 1.3e21 at sqrt price 1.8e-11 "moved" the price UP by
+   one ulp (and the step paid out liquidity x ulp = 1323 units of quote for it) *)
+Example next_base_in_overshoot_witness :
+  next_sqrt_from_base_in_up_raw 18131478 1323027827718843346121535534668354600753 1889203203462104181 = Some 18131479 /\
+  next_sqrt_from_base_in_up 18131478 1323027827718843346121535534668354600753 1889203203462104181 = Some 18131478.
+Proof. split; vm_compute; reflexivity. Qed.
 (* base out, price up: at least the exact liq*sp/(liq - amt*sp), whenever that is defined *)
 Theorem next_base_out_up_ge sp liq amt n :
   0 <= amt -> 0 < sp -> 0 < liq -> amt * sp < liq * P ->
